@@ -9,11 +9,15 @@ import sys
 import threading
 
 TRACED_FUNCS = ('_filter_function', '__init__', 'get', 'filter_function', '__del__')
+# with trace_eval: the evaluation helpers too, so that threads are switched in the middle of evaluating a row
+EVAL_FUNCS = ('_get_path', '_compare', '_resolve_path')
 
 
 class Scenario:
-    def __init__(self, hz, nthreads=2, warm=0, small_cache=0):
+    def __init__(self, hz, nthreads=2, warm=0, small_cache=0, trace_eval=0):
         self.hz = hz
+        self.trace_eval = trace_eval
+        self.traced = TRACED_FUNCS + (EVAL_FUNCS if trace_eval else ())
         self.GF = sys.modules['hszinc.grid_filter']
         if small_cache:
             # lru_cache stub: same cache, smaller capacity, so that evictions (and the finaliser that removes the
@@ -27,17 +31,25 @@ class Scenario:
         self.tags = ['ta', 'tb', 'tc'][:nthreads]
         # distinct filters with a tag test and literals of their own
         self.filters = ['%s and val == %d and name != "n%d"' % (t, 10 + i, i + 5) for i, t in enumerate(self.tags)]
+        if trace_eval:
+            # the threads' filters share their paths (val, name) and differ in the literals: scratch state kept per path or per
+            # entity by the evaluation helpers would be visible as a wrong row
+            self.filters = ['val == %d and name != "n%d"' % (10 + i, i + 5) for i in range(nthreads)]
 
     def grid(self):
         g = self.hz.Grid(version='3.0', columns=[('id', []), ('val', []), ('name', [])] + [(t, []) for t in self.tags])
         for i, t in enumerate(self.tags):
             g.append({'id': 'r%d' % i, t: self.hz.MARKER, 'val': 10 + i, 'name': 'n%d' % i})
             g.append({'id': 'x%d' % i, t: self.hz.MARKER, 'val': 10 + i, 'name': 'n%d' % (i + 5)})
+        if self.trace_eval:
+            return g           # a small grid: every evaluation line is a scheduling point
         for i in range(len(self.tags)):
             g.append({'id': 'all%d' % i, 'ta': 1, 'tb': 1, 'tc': 1, 'val': 10 + i, 'name': 'zz'})
         return g
 
     def expected(self, i):
+        if self.trace_eval:
+            return ['r%d' % i]
         return ['r%d' % i, 'all%d' % i]
 
     def reset(self):
@@ -77,7 +89,7 @@ class Scenario:
                 return local
 
             def glob(frame, event, arg):
-                if event == 'call' and frame.f_code.co_filename == fname and frame.f_code.co_name in TRACED_FUNCS:
+                if event == 'call' and frame.f_code.co_filename == fname and frame.f_code.co_name in self.traced:
                     return local
                 return None
             return glob
@@ -115,8 +127,8 @@ class Scenario:
             go[pick].release()
             back.acquire()
             step += 1
-            if step > 400:
-                return 'scheduler ran more than 400 steps', schedule
+            if step > 2000:
+                return 'scheduler ran more than 2000 steps', schedule
         for t in threads:
             t.join(5)
         for i in range(n):
@@ -136,8 +148,8 @@ class Scenario:
         return None, schedule
 
 
-def replay_schedule(hz, nthreads, warm, schedule, small_cache=0):
-    return _run_ids_impl(Scenario(hz, nthreads, warm, small_cache), list(schedule))
+def replay_schedule(hz, nthreads, warm, schedule, small_cache=0, trace_eval=0):
+    return _run_ids_impl(Scenario(hz, nthreads, warm, small_cache, trace_eval), list(schedule))
 
 
 def _run_ids_impl(sc, ids):
@@ -159,7 +171,7 @@ def _run_ids_impl(sc, ids):
             return local
 
         def glob(frame, event, arg):
-            if event == 'call' and frame.f_code.co_filename == fname and frame.f_code.co_name in TRACED_FUNCS:
+            if event == 'call' and frame.f_code.co_filename == fname and frame.f_code.co_name in sc.traced:
                 return local
             return None
         return glob
@@ -186,8 +198,8 @@ def _run_ids_impl(sc, ids):
         go[pick].release()
         back.acquire()
         step += 1
-        if step > 600:
-            return 'scheduler ran more than 600 steps'
+        if step > 3000:
+            return 'scheduler ran more than 3000 steps'
     for i in range(n):
         if state['error'][i]:
             return 'thread %d (filter %r) raised %s under schedule %r' % (i, sc.filters[i], state['error'][i], ids)
